@@ -5,7 +5,7 @@ from rules import C20 as C20mod
 LEVEL = 'proof'
 
 
-def build_rows(ctx, R, rule='C09.B'):
+def build_rows(ctx, R, rule='C09.B', length_field_only=False):
     p = ctx.method(B, 'build')
     if p is None:
         return
@@ -31,6 +31,33 @@ def build_rows(ctx, R, rule='C09.B'):
             else:
                 rows = [{'name': 'build/%s/measured-length' % label, 'cond': [T.cmp('Le', n, I(tables.U16_MAX))], 'ret': OK(patched(T.mk_tobytes('tobe', 2, n)))},
                         {'name': 'build/%s/too-long' % label, 'cond': [T.cmp('Gt', n, I(tables.U16_MAX))], 'ret': ERR(ANY), 'optional': buf is None}]
+            if length_field_only:
+                # C09 proper: only bytes 14..16 (and failure above 65535) are this property's business; the rest of the buffer is C10 / C07
+                for o in outs:
+                    if match(o['ret'], OK(ANY)):
+                        F = T.adt_field(o['ret'], '0')
+                        got = T.canon_seq(T.mk_slice(F, I(14), I(16)))
+                        if lcase == 'Some':
+                            want = T.mk_tobytes('tobe', 2, lv)
+                            what = 'explicit-length'
+                        else:
+                            want = T.mk_tobytes('tobe', 2, T.sub(T.mk_len(F), I(16)))
+                            what = 'measured-length'
+                        ok = seq_equal_under(o['pc'], got, want)
+                        fits = lcase == 'Some' or solver.entails(o['pc'], T.cmp('Le', T.sub(T.mk_len(F), I(16)), I(tables.U16_MAX)))
+                        R.inst(rule, 'build/%s/%s/length-field' % (label, what), ok and fits, expected='bytes 14..16 = %s%s' % (T.short(want), '' if lcase == 'Some' else ' and payload <= 65535'),
+                               found='bytes 14..16 = %s of %s' % (T.short(got), T.short(F)[:200]), entry=p, note=None if ok and fits else 'under ' + pc_text(o['pc'], 8))
+                    else:
+                        # failure is allowed only when no explicit length is in force and the payload exceeds 65535
+                        okf = lcase == 'None' and not solver.sat(list(o['pc']) + [T.cmp('Le', n, I(tables.U16_MAX))])
+                        R.inst(rule, 'build/%s/%s/fails-only-when-too-long' % (label, lcase), okf, expected='Err only if no explicit length and payload > 65535', found=o['ret'], entry=p,
+                               note='under ' + pc_text(o['pc'], 8))
+                if lcase == 'None' and buf is not None:
+                    over = [o for o in outs if solver.sat(list(o['pc']) + [T.cmp('Gt', n, I(tables.U16_MAX))])]
+                    R.inst(rule, 'build/%s/too-long-is-refused' % label, len(over) > 0 and all(match(o['ret'], ERR(ANY)) for o in over), expected='Err(_) whenever payload > 65535',
+                           found='; '.join(T.short(o['ret'])[:60] for o in over[:3]), entry=p)
+                n_rows += 2
+                continue
             # compare modulo canonical sequences
             for o in outs:
                 o2 = dict(o)
@@ -61,7 +88,7 @@ def run(ctx, R):
                      'set_length assigns length := into(arg) and nothing else. C09.V: the three size-limited encoders refuse before writing '
                      '(C20.R re-evaluated here) and no truncating cast survives on any builder path. Because every method transformer is checked '
                      'on arbitrary pre-states, the result holds for every call history.')
-    n = build_rows(ctx, R) or 0
+    n = build_rows(ctx, R, length_field_only=True) or 0
     R.floor('build scenarios', n, 10)
     # C09.S
     p = ctx.method(B, 'set_length')
@@ -86,7 +113,7 @@ def run(ctx, R):
         if not R.require(im is not None, 'C09.V', self_ty, 'size-limited encoder impl missing'):
             continue
         pth = [it['path'] for it in im['items'] if it['name'] == 'write_to'][0]
-        C20mod.check_encoder(ctx, R, pth, self_ty, E, limit_on=limit_on)
+        C20mod.check_encoder(ctx, R, pth, self_ty, E, limit_on=limit_on, limits_only=True)
         ev, outs = ctx.entry(pth)
         for o in outs or []:
             for nt in o['notes']:
